@@ -37,6 +37,8 @@ func allMapRanges(c *Ctx) []mapRangeSite {
 	for _, f := range c.AllFuncs() {
 		info := f.Pkg.TypesInfo
 		pc := &pathCtx{info: info}
+		defs := newDefs(info)
+		defs.scan(f.Decl.Body)
 		ast.Inspect(f.Decl.Body, func(n ast.Node) bool {
 			rs, ok := n.(*ast.RangeStmt)
 			if !ok {
@@ -44,7 +46,22 @@ func allMapRanges(c *Ctx) []mapRangeSite {
 			}
 			if tv, ok := info.Types[rs.X]; ok {
 				if _, isMap := tv.Type.Underlying().(*types.Map); isMap {
-					out = append(out, mapRangeSite{f, rs, pc.path(rs.X)})
+					// a local that is merely another name of a map (`m := lalr.DRSet`) is that map
+					x := unparen(rs.X)
+					for k := 0; k < 4; k++ {
+						o := identObj(info, x)
+						if o == nil || defs.count[o] != 1 || defs.single[o] == nil {
+							break
+						}
+						d := unparen(defs.single[o])
+						if _, isSel := d.(*ast.SelectorExpr); !isSel {
+							if _, isId := d.(*ast.Ident); !isId {
+								break
+							}
+						}
+						x = d
+					}
+					out = append(out, mapRangeSite{f, rs, pc.path(x)})
 				}
 			}
 			return true
@@ -718,8 +735,8 @@ func c14Exception(c *Ctx, s mapRangeSite, problems []string) (string, bool) {
 				for _, l := range x.Lhs {
 					ix, ok := unparen(l).(*ast.IndexExpr)
 					if !ok {
-						if id, ok := unparen(l).(*ast.Ident); ok && id.Name == "_" {
-							continue
+						if id, ok := unparen(l).(*ast.Ident); ok && (id.Name == "_" || (x.Tok == token.DEFINE && info.Defs[id] != nil)) {
+							continue // a local of the loop body
 						}
 						bad = "store to " + exprString(l)
 						continue
